@@ -284,7 +284,7 @@ func init() {
 		Thorough:    []Run{{Scenario: "si-reuse", Depth: 9, MapModes: []int{1}}, {Scenario: "gang-si-reversed", Depth: 10, MapModes: []int{1}}, {Scenario: "gang-si-same", Depth: 10, MapModes: []int{1}}, {Scenario: "reserve-bind-si", Depth: 10, MapModes: []int{1, 2}}, {Scenario: "si-basic", Depth: 9, MapModes: []int{1, 2}}, {Scenario: "gang-si-Soft", Depth: 9, MapModes: []int{1, 2}}, {Scenario: "gang-si-Hard", Depth: 9, MapModes: []int{1}}, {Scenario: "reserve-si", Depth: 8, MapModes: []int{1}}},
 		QuickBudget: 150 * time.Second, ThoroughBudget: 12 * time.Minute})
 	registerCheck(&CheckDef{Prop: "C06", Level: "model_checking", Technique: tE1,
-		Quick:       []Run{{Scenario: "gang-Soft", Depth: 6, MapModes: []int{1}}, {Scenario: "gang-Hard", Depth: 6, MapModes: []int{1}}, {Scenario: "gang-sparse", Depth: 6, MapModes: []int{1}}},
+		Quick:       []Run{{Scenario: "gang-Soft", Depth: 7, MapModes: []int{1}}, {Scenario: "gang-Hard", Depth: 7, MapModes: []int{1}}, {Scenario: "gang-sparse", Depth: 7, MapModes: []int{1}}},
 		Thorough:    []Run{{Scenario: "gang-sparse", Depth: 10, MapModes: []int{1}}, {Scenario: "gang-Soft", Depth: 10, MapModes: []int{1, 2}}, {Scenario: "gang-Hard", Depth: 10, MapModes: []int{1, 2}}},
 		QuickBudget: 150 * time.Second, ThoroughBudget: 12 * time.Minute})
 	registerCheck(&CheckDef{Prop: "C09", Level: "model_checking", Technique: tE1,
@@ -304,7 +304,7 @@ func init() {
 			return strings.HasPrefix(n, "S15-") || strings.HasPrefix(n, "S16-") || strings.HasPrefix(n, "S21-") || strings.HasPrefix(n, "S22-") || strings.HasPrefix(n, "S24-")
 		}), Replay: replayC14})
 	registerCheck(&CheckDef{Prop: "C11", Level: "model_checking", Technique: tE1,
-		Quick:       []Run{{Scenario: "maxapps", Depth: 7, MapModes: []int{1}}, {Scenario: "maxapps-restart", Depth: 8, MapModes: []int{1}}},
+		Quick:       []Run{{Scenario: "maxapps", Depth: 8, MapModes: []int{1}}, {Scenario: "maxapps-restart", Depth: 9, MapModes: []int{1}}},
 		Thorough:    []Run{{Scenario: "maxapps-restart", Depth: 12, MapModes: []int{1}}, {Scenario: "maxapps", Depth: 10, MapModes: []int{1, 2}}},
 		QuickBudget: 150 * time.Second, ThoroughBudget: 12 * time.Minute})
 }
